@@ -1602,8 +1602,11 @@ fn restore_stack_frame(
 
 /// Values to push back to the evalled_values stack if we encounter an
 /// error, so we can resume.
+///
+/// The evaluation loop now restores the whole stack frame itself
+/// (see `Env::rollback_step`), so these values are only informative.
 #[derive(Debug, Clone)]
-struct RestoreValues(Vec<Value>);
+struct RestoreValues(#[allow(dead_code)] Vec<Value>);
 
 fn eval_if(
     env: &mut Env,
@@ -7185,9 +7188,16 @@ pub(crate) fn eval(env: &mut Env, session: &Session) -> Result<Value, EvalError>
                 println!();
             }
 
+            let initial_expr_state = expr_state;
+            let (exprs_len, blocks_len) = env.begin_step();
+
             match eval_expr(env, session, Rc::clone(&outer_expr), &mut expr_state) {
-                Err((RestoreValues(restore_values), eval_err)) => {
-                    restore_stack_frame(env, (expr_state, Rc::clone(&outer_expr)), &restore_values);
+                Err((_, eval_err)) => {
+                    // Put the stack frame back exactly as it was
+                    // before this step, so resuming retries the same
+                    // expression on the same values.
+                    env.rollback_step(exprs_len, blocks_len);
+                    restore_stack_frame(env, (initial_expr_state, Rc::clone(&outer_expr)), &[]);
                     return Err(eval_err);
                 }
                 Ok(Some(new_stack_frame)) => {
